@@ -47,7 +47,7 @@ from concurrent.futures.process import BrokenProcessPool  # noqa: E402
 from dst import core  # noqa: E402
 
 CLAIMED = core.CLAIMED
-WALL_CAP = {"quick": 150.0, "thorough": 1500.0}
+WALL_CAP = {"quick": 300.0, "thorough": 2400.0}
 if os.environ.get("VERIF_WALL_CAP"):      # mutant self-tests run checks with few workers each: do not truncate those batches
     WALL_CAP = {k: float(os.environ["VERIF_WALL_CAP"]) for k in WALL_CAP}
 CHUNK_WALL = 600  # seconds: backstop for one chunk of runs in a worker (dump traceback + exit)
